@@ -122,6 +122,10 @@ def run(ctx):
                       "_invalidate_obj marks the root object dirty and clears the error; _resolve stores the error before re-raising and clears the dirty flag only after a completed evaluation", floor=3)
     ctx.rule("R09.g", "change detection feeding the invalidation watchers is exact on containers: Comparator.compare_iterator/compare_mapping, interpreted abstractly on 24 container pairs, "
                       "answer True iff same type, same size/key set and pairwise-equal elements (a false 'equal' suppresses the invalidation of every expression reading that input)", floor=2)
+    ctx.rule("R09.v", "rx value-setter model: the setter of reactive_ops.value interpreted on a root expression given a container (with and without references inside): the wrapper receives the "
+                      "resolved -- rebuilt, private -- value, never the caller's own object (else re-assigning the same, extended container compares identical and invalidates nothing)", floor=1)
+    ctx.rule("R09.u", "update model: Parameters._update interpreted abstractly: the events of the values applied before a rejected key are flushed when the call raises -- the invalidation "
+                      "watchers of every expression that reads those parameters are among them", floor=1)
     ctx.rule("R09.h", "watch delivery: reactive_ops._watch registers its callback with bind(<cb>, self._reactive, watch=True); inside the callback every path on which a function was given "
                       "hands the value to it (directly or through the async executor), and the callback reads no state of the shared .rx namespace object", floor=3)
     ctx.rule("R09.j", "where model: reactive_ops.where interpreted abstractly; the callbacks it binds to the dependencies of each branch are called under six current conditions "
@@ -356,3 +360,6 @@ def run(ctx):
     where_model.report(ctx, "R09.j")
     from checks import rx_model
     rx_model.report(ctx, "R09.i")
+    rx_model.value_setter_model(ctx, "R09.v")
+    from checks import update_model
+    update_model.report(ctx, "C09", "R09.u")
